@@ -190,6 +190,11 @@ func verifC15(extended bool) {
 				}
 			}
 			verifrt.Assert(verifSameStrings(it, wantValid), label+": IterateValidIds yields exactly the entities with child data")
+			var itAll []string
+			for c := env.emp.IterateIds(tx, ast.BoolNodeTrue); c.IsValid(); c.Next() {
+				itAll = append(itAll, string(c.Current()))
+			}
+			verifrt.Assert(verifSameStrings(itAll, wantAllIds), label+": IterateIds through the parent store yields every entity")
 			// a sorted query through the child store (sorting scanner): first of the
 			// child entities by name, count = number of child entities
 			sids, scount, err := mgr.QueryIds(tx, "true sort by name limit 1")
